@@ -9,19 +9,22 @@ use super::*;
 use crate::packet::v5::{NtpClientCookie, NtpEra, NtpFlags, NtpHeaderV5, NtpMode, NtpServerCookie, NtpTimescale};
 use crate::packet::{CipherProvider, NtpHeaderV3V4, NtpLeapIndicator};
 use crate::time_types::{NtpDuration, PollIntervalLimits};
-use crate::verif_common::{harness, EfLists, FromParts, Parts, V3V4Parts};
+use crate::verif_common::{harness, EfLists, FromParts, Ghost, Parts, V3V4Parts};
 use std::sync::atomic::{AtomicBool, AtomicI64, AtomicU64, AtomicU8, Ordering::Relaxed};
 
 // ---------------------------------------------------------------- recording controller (ghost state)
-static MEAS_CALLS: AtomicU8 = AtomicU8::new(0);
-static USABLE_CALLS: AtomicU8 = AtomicU8::new(0);
-static USABLE_LAST: AtomicBool = AtomicBool::new(false);
-static STOP_AT_POLL_QUERY: AtomicBool = AtomicBool::new(false);
+// Every recording static is a `Ghost<_>` (common.rs): Kani 0.68 lets a plain `static X: AtomicU64 =
+// AtomicU64::new(0)` share its storage with every constant made of the same bytes (e.g. the capacity
+// of `Vec::new()`), so a store to X corrupted later `vec![]`s -- the tag makes the bytes unique.
+static MEAS_CALLS: Ghost<AtomicU8> = Ghost::new(0x6768_6f73_7453_0000 + 1, AtomicU8::new(0));
+static USABLE_CALLS: Ghost<AtomicU8> = Ghost::new(0x6768_6f73_7453_0000 + 2, AtomicU8::new(0));
+static USABLE_LAST: Ghost<AtomicBool> = Ghost::new(0x6768_6f73_7453_0000 + 3, AtomicBool::new(false));
+static STOP_AT_POLL_QUERY: Ghost<AtomicBool> = Ghost::new(0x6768_6f73_7453_0000 + 4, AtomicBool::new(false));
 // first / second measurement handed to the controller (timestamps as raw u64)
-static M0_SENDER_TS: AtomicU64 = AtomicU64::new(0);
-static M0_RECEIVER_TS: AtomicU64 = AtomicU64::new(0);
-static M1_SENDER_TS: AtomicU64 = AtomicU64::new(0);
-static M1_RECEIVER_TS: AtomicU64 = AtomicU64::new(0);
+static M0_SENDER_TS: Ghost<AtomicU64> = Ghost::new(0x6768_6f73_7453_0000 + 5, AtomicU64::new(0));
+static M0_RECEIVER_TS: Ghost<AtomicU64> = Ghost::new(0x6768_6f73_7453_0000 + 6, AtomicU64::new(0));
+static M1_SENDER_TS: Ghost<AtomicU64> = Ghost::new(0x6768_6f73_7453_0000 + 7, AtomicU64::new(0));
+static M1_RECEIVER_TS: Ghost<AtomicU64> = Ghost::new(0x6768_6f73_7453_0000 + 8, AtomicU64::new(0));
 
 fn ts_raw(t: NtpTimestamp) -> u64 {
     u64::from_be_bytes(t.to_bits())
@@ -313,10 +316,10 @@ fn c11_canary_reach_nine_polls() {
 // The jitter expression `interval.as_system_duration().mul_f64(gen_range(1.01..=1.05))` is split:
 // the harnesses of handle_timer check WHAT is multiplied (recorded here, result arbitrary), and
 // c10_p_mul_f64_jitter_range checks the real Duration::mul_f64 on exactly those arguments.
-static MULF_CALLS: AtomicU8 = AtomicU8::new(0);
-static MULF_SELF_NS: AtomicU64 = AtomicU64::new(0);
-static MULF_RHS_BITS: AtomicU64 = AtomicU64::new(0);
-static MULF_RET_NS: AtomicU64 = AtomicU64::new(0);
+static MULF_CALLS: Ghost<AtomicU8> = Ghost::new(0x6768_6f73_7453_0000 + 9, AtomicU8::new(0));
+static MULF_SELF_NS: Ghost<AtomicU64> = Ghost::new(0x6768_6f73_7453_0000 + 10, AtomicU64::new(0));
+static MULF_RHS_BITS: Ghost<AtomicU64> = Ghost::new(0x6768_6f73_7453_0000 + 11, AtomicU64::new(0));
+static MULF_RET_NS: Ghost<AtomicU64> = Ghost::new(0x6768_6f73_7453_0000 + 12, AtomicU64::new(0));
 fn mul_f64_rec(d: Duration, rhs: f64) -> Duration {
     MULF_CALLS.store(MULF_CALLS.load(Relaxed).saturating_add(1), Relaxed);
     MULF_SELF_NS.store(d.as_nanos() as u64, Relaxed);
@@ -330,15 +333,15 @@ fn mul_f64_rec(d: Duration, rhs: f64) -> Duration {
 // Quick-tier harnesses of handle_timer check the packet object handed to the encoder (version,
 // poll, upgrade marker, request id); the encoder itself (bytes == header fields) is C24's subject
 // and the thorough-tier twins (c12_tp_timer_wire_*) run the real encoder and look at the bytes.
-static SER_CALLS: AtomicU8 = AtomicU8::new(0);
-static SER_VERSION: AtomicU8 = AtomicU8::new(0);
-static SER_POLL: AtomicU8 = AtomicU8::new(0);
-static SER_MODE_CLIENT: AtomicBool = AtomicBool::new(false);
-static SER_UPGRADE: AtomicBool = AtomicBool::new(false);
-static SER_ECHO: AtomicU64 = AtomicU64::new(0);
-static SER_N_AUTH: AtomicU8 = AtomicU8::new(0);
-static SER_N_UNTR: AtomicU8 = AtomicU8::new(0);
-static SER_HAS_CIPHER: AtomicBool = AtomicBool::new(false);
+static SER_CALLS: Ghost<AtomicU8> = Ghost::new(0x6768_6f73_7453_0000 + 13, AtomicU8::new(0));
+static SER_VERSION: Ghost<AtomicU8> = Ghost::new(0x6768_6f73_7453_0000 + 14, AtomicU8::new(0));
+static SER_POLL: Ghost<AtomicU8> = Ghost::new(0x6768_6f73_7453_0000 + 15, AtomicU8::new(0));
+static SER_MODE_CLIENT: Ghost<AtomicBool> = Ghost::new(0x6768_6f73_7453_0000 + 16, AtomicBool::new(false));
+static SER_UPGRADE: Ghost<AtomicBool> = Ghost::new(0x6768_6f73_7453_0000 + 17, AtomicBool::new(false));
+static SER_ECHO: Ghost<AtomicU64> = Ghost::new(0x6768_6f73_7453_0000 + 18, AtomicU64::new(0));
+static SER_N_AUTH: Ghost<AtomicU8> = Ghost::new(0x6768_6f73_7453_0000 + 19, AtomicU8::new(0));
+static SER_N_UNTR: Ghost<AtomicU8> = Ghost::new(0x6768_6f73_7453_0000 + 20, AtomicU8::new(0));
+static SER_HAS_CIPHER: Ghost<AtomicBool> = Ghost::new(0x6768_6f73_7453_0000 + 21, AtomicBool::new(false));
 fn serialize_rec<'a>(
     pkt: &NtpPacket<'a>,
     w: &mut Cursor<&mut [u8]>,
@@ -753,18 +756,21 @@ enum Kiss {
 }
 /// V3/V4: the reference id carries the code. V5 has no code field: "DENY" is poll == 127 (never),
 /// "RATE" is a poll field above the interval we used, the auth-NAK flag is the NTS NAK.
-/// (precedence for V5 packets that are several at once: as dispatched -- rate, deny, nak.)
+/// Precedence (C07/C09): a packet that is an NTS not-acknowledge (V3/V4: code "NTSN"; V5: auth-NAK
+/// flag, which can be combined with a deny / rate poll field) is an NTS NAK whatever else it says:
+/// a NAK is the only answer taken without authentication, so it must never act as RATE / DENY.
 fn spec_kiss_class(p: &PktSpec, last_poll: i8) -> Kiss {
     if p.stratum != 0 {
         return Kiss::None;
+    }
+    if spec_is_ntsn(p) {
+        return Kiss::Ntsn;
     }
     if p.version == 5 {
         if p.poll > last_poll && p.poll != 127 {
             Kiss::Rate
         } else if p.poll == 127 {
             Kiss::Deny
-        } else if p.authnak {
-            Kiss::Ntsn
         } else {
             Kiss::Unknown
         }
@@ -774,8 +780,6 @@ fn spec_kiss_class(p: &PktSpec, last_poll: i8) -> Kiss {
             Kiss::Rate
         } else if c == code(b"DENY") || c == code(b"RSTR") {
             Kiss::Deny
-        } else if c == code(b"NTSN") {
-            Kiss::Ntsn
         } else {
             Kiss::Unknown
         }
@@ -937,10 +941,9 @@ fn incoming_contract(nts: bool, p: PktSpec) -> (Snap, Snap, PktSpec, bool) {
     let last_poll = plog(before.last_poll);
     let kiss = spec_kiss_class(&p, last_poll);
     let unchanged = after == before;
-    // V5 datagrams with the auth-NAK flag that are not bound to the request by an authenticated
-    // uid: the generic "no effect" clauses below skip them; the C07 clause does not (FINDING,
-    // isolated in c07_tb_nts_unauth_v5_nak, see units/C07.json)
-    let nak_region = nts && p.parse_ok && p.version == 5 && p.authnak && !bound;
+    // (no exception for NTS NAKs: a NAK bound to the request only by an untrusted uid is not
+    // "valid" here, and must therefore have no effect at all -- the NAK arm is dispatched first
+    // and changes nothing)
 
     // ---------------- C08: measurements only for fresh answers, at most one per request
     assert!(meas == 0 || meas == 2);
@@ -954,6 +957,11 @@ fn incoming_contract(nts: bool, p: PktSpec) -> (Snap, Snap, PktSpec, bool) {
         assert!(M0_SENDER_TS.load(Relaxed) == ts_raw(send_time) && M0_RECEIVER_TS.load(Relaxed) == p.recv);
         assert!(M1_SENDER_TS.load(Relaxed) == p.xmit && M1_RECEIVER_TS.load(Relaxed) == ts_raw(recv_time));
         assert!(usable_calls == 1);
+        // C33: usability is decided on the answer just processed (its stratum; the source is
+        // reachable by now), not on what the previous answer said. (plain_info(): no local
+        // addresses; the fresh RemoteBloomFilter is not filled, so no Bloom filter is published.)
+        let local_stratum = s.source_info.read().unwrap().local_stratum;
+        assert!(USABLE_LAST.load(Relaxed) == (p.stratum < local_stratum));
         assert!(no_action);
         assert!(after.reach == before.reach | 1 && !after.have_deny);
         assert!(after.stratum == p.stratum);
@@ -981,7 +989,7 @@ fn incoming_contract(nts: bool, p: PktSpec) -> (Snap, Snap, PktSpec, bool) {
     }
 
     // ---------------- everything that is not a valid response has no effect at all
-    if !valid && !nak_region {
+    if !valid {
         assert!(no_action && meas == 0 && usable_calls == 0);
         assert!(unchanged);
     }
@@ -1027,7 +1035,7 @@ fn incoming_contract(nts: bool, p: PktSpec) -> (Snap, Snap, PktSpec, bool) {
             }
             Kiss::None => {}
         }
-    } else if !nak_region {
+    } else {
         assert!(no_action, "Demobilize only for a valid DENY/RSTR on an NTS source");
     }
 
@@ -1077,6 +1085,11 @@ fn incoming_contract(nts: bool, p: PktSpec) -> (Snap, Snap, PktSpec, bool) {
         }
         assert!(after.snapshots == 1);
     }
+    // run time: the drop glue of the source (Arc<RwLock<..>>, Arc<Mutex<VecMap>>, the NTS data with
+    // its 8-slot cookie stash and two boxed ciphers) and of the exhausted action iterator is not part
+    // of the obligation (everything observable was read above)
+    core::mem::forget(acts);
+    core::mem::forget(s);
     (before, after, p, valid)
 }
 
@@ -1138,7 +1151,8 @@ incoming_harness!(c07_tb_nts_unauth_v5_no_nak, 4, {
     assert!(!valid);
     kani::cover!(p.parse_ok && p.stratum == 0 && p.poll == 127 && p.n[2] >= 1 && p.efs[2][0].kind == EF_UID, "unauthenticated V5 deny with uid reachable");
 });
-// FINDING harness: same claim for V5 datagrams carrying the auth-NAK flag (see units/C07.json)
+// same claim for V5 datagrams carrying the auth-NAK flag. Before the repair of the dispatch order in
+// handle_incoming (NAK arm first) this was the FINDING harness of C07 (NAK + poll 127 => Demobilize).
 incoming_harness!(c07_tb_nts_unauth_v5_nak, 4, {
     let mut p = any_pkt(true);
     p.authnak = true;
@@ -1218,14 +1232,14 @@ incoming_harness!(c09_tb_kiss_nts_v5, 4, {
 // extension fields: version transition table (C12), freshness / at most one measurement (C08), KISS
 // arms incl. the RATE step never exceeding max(limits.max, last poll) (C09, C10), T1..T4 mapping (C05).
 // ~5-8 min each; also listed as extra harnesses of the C08 / C09 / C10 units.
-incoming_harness!(c12_tb_incoming_contract_plain_v3v4, 4, {
+incoming_harness!(c12_b_incoming_contract_plain_v3v4, 4, {
     let p = any_pkt(false);
     let (before, after, _p, valid) = incoming_contract(false, p);
     kani::cover!(valid && matches!(before.version, ProtocolVersion::V4UpgradingToV5 { tries_left: 1 }) && after.version == ProtocolVersion::V4, "giving up the upgrade reachable");
     kani::cover!(valid && after.version == ProtocolVersion::UpgradedToV5, "upgrade reachable");
     kani::cover!(valid && matches!(after.version, ProtocolVersion::V4UpgradingToV5 { tries_left: 7 }), "countdown reachable");
 });
-incoming_harness!(c12_tb_incoming_contract_plain_v5, 4, {
+incoming_harness!(c12_b_incoming_contract_plain_v5, 4, {
     let p = any_pkt(true);
     let (before, after, _p, valid) = incoming_contract(false, p);
     kani::cover!(valid && before.version == ProtocolVersion::UpgradedToV5 && after.version == ProtocolVersion::V5, "confirmation reachable");
@@ -1235,7 +1249,7 @@ incoming_harness!(c12_tb_incoming_contract_plain_v5, 4, {
 // lemma (C08 "at most one measurement per request"): a second delivery before the next timer
 // finds no pending request. Pre-state `pending == None` is what the accepting arm leaves behind
 // (asserted in incoming_contract); any packet whatsoever then has no effect.
-incoming_harness!(c08_tb_replay_after_accept_ignored, 4, {
+incoming_harness!(c08_b_replay_after_accept_ignored, 4, {
     let mut p = any_pkt(kani::any());
     p.n = [0, 0, 1];
     p.efs[2][0] = any_ef(&ALL_EF_KINDS);
@@ -1477,8 +1491,8 @@ macro_rules! layout_harness {
 layout_harness!(c13_b_nts_poll_layout_v4_n1, false, 1);
 layout_harness!(c13_b_nts_poll_layout_v4_n3, false, 3);
 layout_harness!(c13_b_nts_poll_layout_v5_n3, true, 3);
-layout_harness!(c13_tb_nts_poll_layout_v4_n8, false, 8);
-layout_harness!(c13_tb_nts_poll_layout_v5_n8, true, 8);
+layout_harness!(c13_b_nts_poll_layout_v4_n8, false, 8);
+layout_harness!(c13_b_nts_poll_layout_v5_n8, true, 8);
 
 
 // ================================================================ quick tier for C07 / C08 / C09 / C12:
@@ -1630,13 +1644,13 @@ fn c09_p_kiss_predicates_match_classification() {
     let rate = pkt.is_kiss_rate(own);
     let deny = pkt.is_kiss_deny() || pkt.is_kiss_rstr();
     let ntsn = pkt.is_kiss_ntsn();
-    // dispatch order of handle_incoming: rate, deny/rstr, ntsn, other kiss
-    let class = if rate {
+    // dispatch order of handle_incoming: ntsn, rate, deny/rstr, other kiss
+    let class = if ntsn {
+        Kiss::Ntsn
+    } else if rate {
         Kiss::Rate
     } else if deny {
         Kiss::Deny
-    } else if ntsn {
-        Kiss::Ntsn
     } else if pkt.is_kiss() {
         Kiss::Unknown
     } else {
@@ -1647,7 +1661,7 @@ fn c09_p_kiss_predicates_match_classification() {
         // V3/V4: the four codes are mutually exclusive, no precedence involved
         assert!(rate as u8 + deny as u8 + ntsn as u8 <= 1);
     }
-    kani::cover!(p.version == 5 && ntsn && deny, "V5 packet that is NAK and deny at once (dispatched as deny)");
+    kani::cover!(p.version == 5 && ntsn && deny, "V5 packet that is NAK and deny at once (dispatched as NAK)");
     kani::cover!(class == Kiss::Rate && p.version == 5, "V5 rate reachable");
 }
 #[kani::proof]
